@@ -242,7 +242,17 @@ func RunC03(tier string) int {
 		}
 	}
 	if thorough {
-		runJobs("2-rule files (full alphabet)", mk(two, []int{1, 2}, consumers[:2]))
+		// full alphabet squared (≈774k rule files): plain Pack on universe 1; the other
+		// consumer/universe combinations run on the half alphabet without parenthesised/dotted segments
+		runJobs("2-rule files (full alphabet), Pack+ignore, universe 1", mk(two, []int{1}, consumers[:1]))
+		var twoHalf [][]string
+		for _, rf := range two {
+			if !strings.ContainsAny(rf[0]+rf[1], "(.+?") {
+				twoHalf = append(twoHalf, rf)
+			}
+		}
+		runJobs("2-rule files (segments a,b,*,a*,**,ab), deref consumer + universe 2", append(mk(twoHalf, []int{1}, consumers[1:2]), mk(twoHalf, []int{2}, consumers[:1])...))
+		two = twoHalf
 	} else {
 		// quick: 2-rule files over the core alphabet; the second universe only for plain Pack
 		runJobs("2-rule files (core alphabet)", mk(two, []int{1}, consumers[:2]))
